@@ -25,6 +25,9 @@
 
 const char* nmc_property() { return "C04"; }
 
+static void enumerate_optional(const nmc::Tier& t, const nmc::Sink& emit);   // optional-parameter audit: see the second half of this file
+static bool execute_optional(const Case& c, Outcome& out);
+
 void nmc_enumerate(const nmc::Tier& t, const nmc::Sink& emit) {
     long e = t.thorough() ? 4 : 3;
     nmc::each_shape_range(1, 4, e, [&](const L& s) {
@@ -69,6 +72,7 @@ void nmc_enumerate(const nmc::Tier& t, const nmc::Sink& emit) {
     // (a real-valued arange is rejected at compile time - ARANGE_SHAPE_UNSUPPORTED<double,...> - so the real grid applies to linspace only)
     for (long start = -4; start <= 4; start++) for (long stop = -4; stop <= 4; stop++) for (long num = 1; num <= 6; num++) for (long ep = 0; ep <= 1; ep++) emit(Case("linspace", {{start, stop, num, ep}}));   // halves
     for (long N = 1; N <= 4; N++) { emit(Case("identity", {{N}})); for (long M = 1; M <= 4; M++) for (long k = -4; k <= 4; k++) { emit(Case("eye", {{N, M, k}})); emit(Case("tri", {{N, M, k}})); } for (long k = -4; k <= 4; k++) { emit(Case("eye_n", {{N, k}})); emit(Case("tri_n", {{N, k}})); } }
+    enumerate_optional(t, emit);
 }
 
 template <typename V, typename A> static Outcome both(const V& lazy, const A& eager, const ROpt& want, bool nontriv, double rtol = 0) {
@@ -108,6 +112,7 @@ static std::vector<RArr> np_split(const RArr& a, const L& cuts, long ax) {
 }
 
 Outcome nmc_execute(const Case& c) {
+    { Outcome o; if (execute_optional(c, o)) return o; }
     const std::string& op = c.op;
     if (op == "arange" || op == "arange_stop" || op == "arange2" || op == "arange_real") {
         double start = 0, stop = 0, step = 1; double u = op == "arange_real" ? 0.25 : 1.0;
@@ -185,4 +190,438 @@ void nmc_selftest() {
     ROpt e = ref_expand(RArr::iota(L{3}), L{0}, L{1}, 0); if (!e || e->shape != L{5} || e->data[1] != 0 || e->data[2] != 2) nmc::die("selftest: expand model");
     Obs wrong = t->obs(); wrong.data[1] = 2;
     if (nmc::diff(wrong, t).empty()) nmc::die("selftest: oracle blind to unmasked tril element");
+}
+
+// =====================================================================================================================
+// Optional-parameter audit.  The cases above always pass every argument explicitly (and an int64 dtype); the ops below call
+// the OPTIONAL parameters / overloads / argument kinds that were never exercised:
+//   linspace : retstep = True (tuple (array, step): both checked), dtype set, num / endpoint omitted, run-time bool endpoint,
+//              integer start/stop (documented element type: float32), compile-time num;
+//   arange   : dtype omitted (documented default float32), explicit float64, fractional step;
+//   eye / tri / identity : k, M and dtype omitted (default float32); zeros / ones / full with a float dtype, ones(shape) default;
+//   full_like / zeros_like / ones_like : dtype different from the source's element type (and a fractional fill without dtype);
+//   diagonal : diagonal(a), diagonal(a, offset), offset/axes as compile-time constants on dynamic and on fixed-shape sources;
+//   sliding_window : scalar window with axis omitted (1-d: the only rank NumPy accepts), scalar / tuple-of-constants windows;
+//   expand   : list axis with scalar spacing, defaults of spacing and fill;   where : scalar x and/or y (NumPy broadcasts them);
+//   tril / triu / diagflat with k omitted;   split : the eager na::split, sections / indices / axis as compile-time constants.
+// Oracle: the same NumPy-definition models as above; when a parameter is a dtype (or a default dtype is documented) the element
+// TYPE reported by meta::get_element_type_t of the view and of the evaluated array is compared too (failure kind "dtype").
+// Non-triviality: as above (generators and splits always count; an empty NumPy result is outside nmtools' domain -> trivial).
+// Compile-time-constant arguments cannot be enumerated at run time: those ops run over a fixed table of instantiations
+// (the key names the table entry; an entry missing from the table is a harness error).
+#include <type_traits>
+
+namespace opt {
+template <typename T> static const char* tname() {
+    if constexpr (std::is_same_v<T, float>) return "float32"; else if constexpr (std::is_same_v<T, double>) return "float64";
+    else if constexpr (std::is_same_v<T, int>) return "int32"; else if constexpr (std::is_same_v<T, long>) return "int64";
+    else if constexpr (std::is_same_v<T, unsigned long>) return "uint64"; else return "another type";
+}
+// declared element type of a view / array (through maybe)
+template <typename Want, typename V> static std::string elem_type_diff(const V& v, const char* which) {
+    if constexpr (meta::is_maybe_v<V>) { if (!nm::has_value(v)) return ""; return elem_type_diff<Want>(*v, which); }
+    else {
+        using E = meta::get_element_type_t<meta::remove_cvref_t<V>>;
+        if constexpr (std::is_same_v<E, Want>) return "";
+        else return std::string(which) + ": element type is " + tname<E>() + ", expected " + tname<Want>();
+    }
+}
+template <typename Want, typename V, typename A> static Outcome both_t(const V& lazy, const A& eager, const ROpt& want, bool nontriv, double rtol = 0) {
+    Outcome o = both(lazy, eager, want, nontriv, rtol);
+    if (!o.fail.empty()) return o;
+    std::string d = elem_type_diff<Want>(lazy, "view"); if (d.empty()) d = elem_type_diff<Want>(eager, "array");
+    if (!d.empty()) return Outcome::bad("dtype", d, nontriv, o.outcome);
+    return o;
+}
+// numpy.linspace (function_base.py): y = arange(num) * step + start, last sample forced to stop; step = nan when the divisor is 0
+static RArr np_linspace(double start, double stop, long num, bool ep, double* step_out = nullptr) {
+    RArr w(L{num}); double div = ep ? (double)(num - 1) : (double)num; double step = div > 0 ? (stop - start) / div : std::nan("");
+    for (long i = 0; i < num; i++) w.data[(size_t)i] = div > 0 ? start + (double)i * step : start;
+    if (ep && num > 1) w.data[(size_t)num - 1] = stop;
+    if (step_out) *step_out = step;
+    return w;
+}
+// ndarray.astype(T); numpy.linspace floors before converting to an integer dtype
+template <typename T> static RArr astype(RArr w, bool floor_first = false) {
+    for (auto& x : w.data) { if constexpr (std::is_integral_v<T>) x = (double)(T)(floor_first ? std::floor(x) : x); else x = (double)(T)x; }
+    return w;
+}
+template <typename T> constexpr double rtol_of() { return std::is_same_v<T, float> ? 1e-6 : (std::is_same_v<T, double> ? 1e-12 : 0.0); }
+// dtype menu: 0 float32, 1 float64, 2 int32, 3 int64
+template <typename F> static Outcome with_dtype(long code, F&& f) {
+    switch (code) { case 0: return f(nm::float32); case 1: return f(nm::float64); case 2: return f(nm::int32); case 3: return f(nm::int64); }
+    nmc::die("dtype code");
+}
+template <typename F> static Outcome with_float_dtype(long code, F&& f) { if (code == 0) return f(nm::float32); if (code == 1) return f(nm::float64); nmc::die("float dtype code"); }
+template <typename D> using dt_elem = nm::get_dtype_t<meta::remove_cvref_t<D>>;
+// compile-time constants spelled like the upstream tests: N_ct is a size_t constant, negative ones are int constants
+template <long V> constexpr auto ctc() { if constexpr (V >= 0) return meta::ct_v<(size_t)V>; else return meta::ct_v<(int)V>; }
+template <long... V> constexpr auto ctt() { return nmtools_tuple{ctc<V>()...}; }
+template <int R> using rank_c = std::integral_constant<int, R>;
+// fixed-shape sources (compile-time-constant shape): long[6], long[2][3], long[2][3][4], elements 1, 2, ...
+struct Fixed {
+    long f6[6]; long f23[2][3]; long f234[2][3][4];
+    Fixed() { for (long i = 0; i < 6; i++) { f6[i] = i + 1; (&f23[0][0])[i] = i + 1; } for (long i = 0; i < 24; i++) (&f234[0][0][0])[i] = i + 1; }
+    static L shape_of(int rank) { return rank == 1 ? L{6} : rank == 2 ? L{2, 3} : L{2, 3, 4}; }
+};
+static void each_small_shape(const nmc::Tier& t, int dmax_quick, int dmax_thorough, const std::function<void(const L&)>& f) {
+    nmc::each_shape_range(1, t.thorough() ? dmax_thorough : dmax_quick, t.thorough() ? 4 : 3, f);
+}
+
+// ---- tables of compile-time argument combinations (offset, axis1, axis2) / (window, axis) / (sections, axis)
+#define OPT_DIAG2(X) X(0, 0, 1) X(1, 0, 1) X(-1, 0, 1) X(2, 0, 1) X(1, 1, 0) X(-1, -1, -2) X(0, -2, -1)
+#define OPT_DIAG3(X) X(0, 0, 2) X(1, 0, 2) X(-1, 2, 0) X(0, 1, 2) X(1, 2, 1) X(-1, -3, -1)
+struct SwEntry { int rank_lo, rank_hi; L w; L ax; bool has_ax; };
+static const std::vector<SwEntry>& sw_scalar_table() {   // scalar constant window; axis omitted (rank 1 only) or a scalar constant
+    static const std::vector<SwEntry> T = {{1, 1, {2}, {}, false}, {1, 1, {3}, {}, false}, {1, 3, {2}, {-1}, true}, {1, 3, {2}, {0}, true}, {2, 3, {3}, {1}, true}};
+    return T;
+}
+static const std::vector<SwEntry>& sw_tuple_table() {    // tuple-of-constants window; axis omitted (window rank = source rank) or a tuple of constants
+    static const std::vector<SwEntry> T = {{1, 1, {2}, {}, false}, {2, 2, {2, 2}, {}, false}, {2, 2, {1, 3}, {}, false}, {3, 3, {2, 1, 2}, {}, false},
+        {2, 3, {2, 2}, {1, 0}, true}, {2, 3, {2, 2}, {-1, -2}, true}, {1, 3, {2}, {-1}, true}, {2, 3, {1, 2}, {0, 0}, true}};
+    return T;
+}
+struct SplitEntry { int rank; L k; long ax; };
+static const std::vector<SplitEntry>& split_fixed_sections() { static const std::vector<SplitEntry> T = {{2, {3}, 1}, {2, {1}, 0}, {2, {2}, -2}, {2, {3}, -1}, {3, {2}, 2}, {3, {3}, -2}, {3, {2}, 0}, {1, {3}, 0}}; return T; }
+static const std::vector<SplitEntry>& split_fixed_indices() { static const std::vector<SplitEntry> T = {{2, {1, 2}, 1}, {2, {1}, 0}, {3, {1, 3}, -1}, {1, {2, 5}, 0}}; return T; }
+} // namespace opt
+
+static void enumerate_optional(const nmc::Tier& t, const nmc::Sink& emit) {
+    using namespace opt;
+    const bool th = t.thorough();
+    // ---- linspace (halves): sub-grid of the grid above
+    L grid = th ? L{-4, -3, -2, -1, 0, 1, 2, 3, 4} : L{-3, -1, 0, 2, 4};
+    for (long a : grid) for (long b : grid) {
+        emit(Case("linspace_default", {{a, b}}));                                                        // num, endpoint omitted: 50 points
+        for (long num = 1; num <= 6; num++) {
+            emit(Case("linspace_num", {{a, b, num}}));                                                   // endpoint omitted
+            for (long ep = 0; ep <= 1; ep++) {
+                emit(Case("linspace_retstep", {{a, b, num, ep}}));
+                emit(Case("linspace_rtbool", {{a, b, num, ep}}));                                        // endpoint as a run-time bool
+                emit(Case("linspace_int", {{a, b, num, ep}}));                                           // integer start / stop, int num
+                if (th || num != 4) for (long dt = 0; dt <= 2; dt++) emit(Case("linspace_dtype", {{a, b, num, ep}, {dt}}));  // float32 / float64 / int32
+                if (th || num != 5) for (long dt = 0; dt <= 1; dt++) emit(Case("linspace_int_dtype", {{a, b, num, ep}, {dt}}));
+                if (num == 1 || num == 2 || num == 5) emit(Case("linspace_numct", {{a, b, num, ep}}));    // compile-time num
+            }
+        }
+    }
+    // ---- arange: dtype omitted, float64, fractional step (quarters)
+    { long lo = th ? -4 : -2, hi = th ? 6 : 4;
+      for (long a = lo; a <= hi; a++) for (long b = lo; b <= hi; b++) {
+          for (long s : {1L, 2L, -1L, -2L}) { emit(Case("arange_default", {{a, b, s}})); emit(Case("arange_f64", {{a, b, s}})); }
+          if (b > a) emit(Case("arange2_default", {{a, b}}));
+          for (long q : {1L, 2L, 3L, 5L, 6L, -1L, -3L, -5L}) if (th || (q != 2 && q != 5 && q != -3)) for (long dt = 0; dt <= 2; dt++) emit(Case("arange_frac", {{a, b, q}, {dt}}));   // dt 2 = omitted
+      }
+      for (long b = 1; b <= 6; b++) emit(Case("arange1_default", {{b}})); }
+    // ---- eye / tri / identity with k, M, dtype omitted
+    for (long N = 1; N <= 4; N++) {
+        emit(Case("eye_default", {{N}})); emit(Case("tri_default", {{N}})); emit(Case("identity_default", {{N}}));
+        for (long M = 1; M <= 4; M++) { emit(Case("eye_nm_default", {{N, M}})); emit(Case("tri_nm_default", {{N, M}})); for (long k = -4; k <= 4; k++) { emit(Case("eye_k_default", {{N, M, k}})); emit(Case("tri_k_default", {{N, M, k}})); } }
+    }
+    // ---- zeros / ones / full with a float dtype; *_like with a dtype other than the source's
+    each_small_shape(t, 3, 4, [&](const L& s) {
+        emit(Case("ones_default", {s}));
+        for (long dt = 0; dt <= 1; dt++) { emit(Case("zeros_dtype", {s, {dt}})); emit(Case("ones_dtype", {s, {dt}})); emit(Case("full_float", {s, {dt}})); }
+    });
+    each_small_shape(t, 2, 4, [&](const L& s) {
+        for (long src = 0; src <= 1; src++) {
+            emit(Case("full_like_frac", {s, {src}}));
+            for (long dt = 0; dt <= 3; dt++) { emit(Case("full_like_dtype", {s, {src}, {dt}})); emit(Case("zeros_like_dtype", {s, {src}, {dt}})); emit(Case("ones_like_dtype", {s, {src}, {dt}})); }
+        }
+    });
+    // ---- diagonal: defaults, offset only, compile-time constants
+    each_small_shape(t, 4, 4, [&](const L& s) {
+        long d = (long)s.size(); if (d < 2) return;
+        emit(Case("diagonal_default", {s}));
+        long n = std::max(s[0], s[1]); if (th || d <= 3) for (long off = -n; off <= n; off++) emit(Case("diagonal_offset", {s, {off}}));
+        RArr r = RArr::iota(s);
+#define X(O, A, B) if (ref::diagonal(r, O, A, B)) emit(Case("diagonal_ct", {s, {O}, {A}, {B}, {0}}));
+        if (d == 2) { OPT_DIAG2(X) } if (d == 3) { OPT_DIAG3(X) }
+#undef X
+    });
+    {
+#define X(O, A, B) emit(Case("diagonal_ct", {Fixed::shape_of(2), {O}, {A}, {B}, {1}}));
+        OPT_DIAG2(X)
+#undef X
+#define X(O, A, B) emit(Case("diagonal_ct", {Fixed::shape_of(3), {O}, {A}, {B}, {1}}));
+        OPT_DIAG3(X)
+#undef X
+    }
+    // ---- sliding_window: scalar window without axis (rank 1), constant windows
+    for (long n = 1; n <= (th ? 6 : 4); n++) for (long w = 1; w <= n; w++) emit(Case("sliding_scalar", {{n}, {w}}));
+    auto sw_emit = [&](const char* op, const std::vector<SwEntry>& T) {
+        for (auto& e : T) {
+            each_small_shape(t, 3, 3, [&](const L& s) { int d = (int)s.size(); if (d < e.rank_lo || d > e.rank_hi) return; if (ref::sliding_window(RArr::iota(s), e.w, e.has_ax ? &e.ax : nullptr)) emit(Case(op, {s, e.w, e.ax, {0}})); });
+            for (int rk = e.rank_lo; rk <= e.rank_hi; rk++) { if (!ref::sliding_window(RArr::iota(Fixed::shape_of(rk)), e.w, e.has_ax ? &e.ax : nullptr)) nmc::die("sliding table entry invalid for the fixed-shape source"); emit(Case(op, {Fixed::shape_of(rk), e.w, e.ax, {1}})); }
+        }
+    };
+    sw_emit("sliding_ctscalar", sw_scalar_table()); sw_emit("sliding_cttuple", sw_tuple_table());
+    // ---- expand: list axis + scalar spacing; defaults of spacing / fill
+    each_small_shape(t, 3, 4, [&](const L& s) {
+        long d = (long)s.size();
+        for (long a = -d; a < d; a++) { emit(Case("expand_default", {s, {a}})); for (long sp = 1; sp <= 2; sp++) emit(Case("expand_spacing", {s, {a}, {sp}})); if (a < 0) emit(Case("expand_list", {s, {a}, {2}})); }
+        nmc::each_subset((int)d, [&](const L& ax) { if (ax.empty() || ax.size() > 3) return; emit(Case("expand_list_default", {s, ax})); for (long sp = 1; sp <= 2; sp++) emit(Case("expand_list", {s, ax, {sp}})); });
+    });
+    // ---- where with scalar x / y
+    {
+        std::vector<L> W; nmc::each_shape_range(1, 3, th ? 3 : 2, [&](const L& s) { W.push_back(s); });
+        for (auto& c : W) { emit(Case("where_scalar_xy", {c})); for (auto& o : W) if (ref::broadcast_shapes({c, o})) { emit(Case("where_scalar_x", {c, o})); emit(Case("where_scalar_y", {c, o})); emit(Case("where_scalar_yf", {c, o})); } }
+    }
+    // ---- tril / triu / diagflat with k omitted
+    each_small_shape(t, 4, 4, [&](const L& s) { emit(Case("tril_default", {s})); emit(Case("triu_default", {s})); if (s.size() <= 2) emit(Case("diagflat_default", {s})); });
+    // ---- split: eager form (same menu as the view form above, rank <= 3 in the quick tier), constants
+    each_small_shape(t, 3, 4, [&](const L& s) {
+        long d = (long)s.size();
+        for (long a = -d; a < d; a++) {
+            long n = s[(size_t)(a < 0 ? a + d : a)];
+            for (long k = 1; k <= n; k++) if (n % k == 0) { emit(Case("split_sections_eager", {s, {k}, {a}})); if (k <= 3 && d <= 3) emit(Case("split_ct", {s, {k}, {a}, {0}})); }
+            if (a >= 0 || a == -1) nmc::each_subset((int)n - 1, [&](const L& cut) { if (cut.empty()) return; L c(cut); for (auto& v : c) v += 1; emit(Case("split_indices_eager", {s, c, {a}})); });
+            if (d <= 3 && n >= 2) emit(Case("split_ct_indices", {s, {1}, {a}, {0}}));
+            if (d <= 3 && n >= 3) emit(Case("split_ct_indices", {s, {1, 2}, {a}, {0}}));
+        }
+    });
+    for (auto& e : split_fixed_sections()) emit(Case("split_ct", {Fixed::shape_of(e.rank), e.k, {e.ax}, {1}}));
+    for (auto& e : split_fixed_indices()) emit(Case("split_ct_indices", {Fixed::shape_of(e.rank), e.k, {e.ax}, {1}}));
+}
+
+namespace opt {
+// one (offset, axis1, axis2) instantiation of diagonal with constants
+template <long O, long A, long B, typename Arr> static Outcome diag_ct(const Arr& a, const RArr& r) {
+    ROpt want = ref::diagonal(r, O, A, B); if (!want) return Outcome::ok(false, 5);
+    return both(view::diagonal(a, ctc<O>(), ctc<A>(), ctc<B>()), na::diagonal(a, ctc<O>(), ctc<A>(), ctc<B>()), want, true);
+}
+template <typename Arr, typename W, typename AX> static Outcome sw_run(const Arr& a, const RArr& r, const W& w, const AX& ax, const L& wl, const L& axl) {
+    if constexpr (nm::is_none_v<AX>) { ROpt want = ref::sliding_window(r, wl, nullptr); return both(view::sliding_window(a, w), na::sliding_window(a, w), want, true); }
+    else { ROpt want = ref::sliding_window(r, wl, &axl); return both(view::sliding_window(a, w, ax), na::sliding_window(a, w, ax), want, true); }
+}
+template <typename Arr, typename K, typename AX> static Outcome split_run(const Arr& a, const RArr& r, const K& k, const AX& ax, const L& cuts, long axl) {
+    auto want = np_split(r, cuts, axl);
+    const auto lazy = view::split(a, k, ax); Outcome o = check_split(lazy, want); if (!o.fail.empty()) { o.fail = "view: " + o.fail; return o; }
+    const auto eager = na::split(a, k, ax); Outcome e = check_split(eager, want); if (!e.fail.empty()) { e.fail = "array: " + e.fail; return e; }
+    return o;
+}
+static L section_cuts(long n, long k) { L cuts; for (long i = 1; i < k; i++) cuts.push_back(i * (n / k)); return cuts; }
+} // namespace opt
+
+static bool execute_optional(const Case& c, Outcome& out) {
+    using namespace opt;
+    const std::string& op = c.op;
+    auto is = [&](const char* n) { return op == n; };
+    // ------------------------------------------------------------------------------------------------ linspace
+    if (op.rfind("linspace_", 0) == 0) {
+        double start = c.a[0][0] * 0.5, stop = c.a[0][1] * 0.5; long num = c.a[0].size() > 2 ? c.a[0][2] : 50; bool ep = c.a[0].size() > 3 ? c.a[0][3] != 0 : true;
+        size_t n = (size_t)num;
+        auto by_ep = [&](auto&& f) { return ep ? f(nm::True) : f(nm::False); };
+        if (is("linspace_default")) { out = both_t<double>(view::linspace(start, stop), na::linspace(start, stop), ROpt(np_linspace(start, stop, 50, true)), true, 1e-12); return true; }
+        if (is("linspace_num")) { out = both_t<double>(view::linspace(start, stop, n), na::linspace(start, stop, n), ROpt(np_linspace(start, stop, num, true)), true, 1e-12); return true; }
+        if (is("linspace_rtbool")) { out = both_t<double>(view::linspace(start, stop, n, ep), na::linspace(start, stop, n, ep), ROpt(np_linspace(start, stop, num, ep)), true, 1e-12); return true; }
+        if (is("linspace_retstep")) {
+            double step = 0; RArr w = np_linspace(start, stop, num, ep, &step);
+            out = by_ep([&](auto e) {
+                const auto lv = view::linspace(start, stop, n, e, nm::True); const auto ea = na::linspace(start, stop, n, e, nm::True);
+                Outcome o = both_t<double>(nm::get<0>(lv), nm::get<0>(ea), ROpt(w), true, 1e-12); if (!o.fail.empty()) return o;
+                // the returned step (NumPy returns nan when the divisor is 0, i.e. num = 1 with endpoint: "irrelevant", not compared)
+                if (!std::isnan(step)) for (double got : {(double)nm::get<1>(lv), (double)nm::get<1>(ea)}) if (std::fabs(got - step) > 1e-12 * (1 + std::fabs(step))) {
+                    char b[120]; snprintf(b, sizeof b, "returned step = %.17g expected %.17g", got, step); return Outcome::bad("wrong", b, true, o.outcome); }
+                return o; });
+            return true;
+        }
+        if (is("linspace_numct")) {
+            RArr w = np_linspace(start, stop, num, ep);
+            auto run = [&](auto nc) { return by_ep([&](auto e) { return both_t<double>(view::linspace(start, stop, nc, e), na::linspace(start, stop, nc, e), ROpt(w), true, 1e-12); }); };
+            out = num == 1 ? run(ctc<1>()) : num == 2 ? run(ctc<2>()) : num == 5 ? run(ctc<5>()) : (nmc::die("linspace_numct: num not in the table"), Outcome());
+            return true;
+        }
+        if (is("linspace_dtype")) {   // float start/stop, explicit dtype: NumPy computes in double, then astype (integers: floor first)
+            RArr w = np_linspace(start, stop, num, ep);
+            out = with_dtype(c.a[1][0], [&](auto dt) { using T = dt_elem<decltype(dt)>;
+                return by_ep([&](auto e) { return both_t<T>(view::linspace(start, stop, n, e, nm::False, dt), na::linspace(start, stop, n, e, nm::False, dt), ROpt(astype<T>(w, true)), true, rtol_of<T>()); }); });
+            return true;
+        }
+        // integer start / stop (whole numbers, not halves), int num.  Documented element type without dtype: float32.
+        int is_ = (int)c.a[0][0], ie_ = (int)c.a[0][1]; int in = (int)num; RArr w = np_linspace(is_, ie_, num, ep);
+        if (is("linspace_int")) { out = by_ep([&](auto e) { return both_t<float>(view::linspace(is_, ie_, in, e), na::linspace(is_, ie_, in, e), ROpt(astype<float>(w)), true, rtol_of<float>()); }); return true; }
+        if (is("linspace_int_dtype")) {
+            out = with_float_dtype(c.a[1][0], [&](auto dt) { using T = dt_elem<decltype(dt)>;
+                return by_ep([&](auto e) { return both_t<T>(view::linspace(is_, ie_, in, e, nm::False, dt), na::linspace(is_, ie_, in, e, nm::False, dt), ROpt(astype<T>(w)), true, rtol_of<T>()); }); });
+            return true;
+        }
+        nmc::die("unknown linspace op");
+    }
+    // ------------------------------------------------------------------------------------------------ arange
+    if (is("arange_default") || is("arange_f64") || is("arange2_default") || is("arange1_default") || is("arange_frac")) {
+        double start = 0, stop = 0, step = 1;
+        if (is("arange1_default")) stop = (double)c.a[0][0]; else { start = (double)c.a[0][0]; stop = (double)c.a[0][1]; if (c.a[0].size() > 2) step = (double)c.a[0][2] * (is("arange_frac") ? 0.25 : 1.0); }
+        long len = (long)std::ceil((stop - start) / step);
+        if (len <= 0) { out = Outcome::ok(false, 3); return true; }      // empty in NumPy: outside nmtools' domain
+        RArr w(L{len}); for (long i = 0; i < len; i++) w.data[(size_t)i] = start + (double)i * step;   // (all values are multiples of 1/4: exact in float32)
+        int a = (int)start, b = (int)stop, s = (int)step;
+        if (is("arange_default")) out = both_t<float>(view::arange(a, b, s), na::arange(a, b, s), ROpt(w), true);
+        else if (is("arange_f64")) out = both_t<double>(view::arange(a, b, s, nm::float64), na::arange(a, b, s, nm::float64), ROpt(w), true);
+        else if (is("arange2_default")) out = both_t<float>(view::arange(a, b), na::arange(a, b), ROpt(w), true);
+        else if (is("arange1_default")) out = both_t<float>(view::arange(b), na::arange(b), ROpt(w), true);
+        else { long dt = c.a[1][0];
+            if (dt == 0) out = both_t<float>(view::arange(a, b, step, nm::float32), na::arange(a, b, step, nm::float32), ROpt(w), true);
+            else if (dt == 1) out = both_t<double>(view::arange(a, b, step, nm::float64), na::arange(a, b, step, nm::float64), ROpt(w), true);
+            else out = both_t<float>(view::arange(a, b, step), na::arange(a, b, step), ROpt(w), true); }
+        return true;
+    }
+    // ------------------------------------------------------------------------------------------------ eye / tri / identity defaults
+    if (is("eye_default")) { int n = (int)c.a[0][0]; out = both_t<float>(view::eye(n), na::eye(n), ROpt(ref::eye(n, n, 0)), true); return true; }
+    if (is("tri_default")) { int n = (int)c.a[0][0]; out = both_t<float>(view::tri(n), na::tri(n), ROpt(ref::tri(n, n, 0)), true); return true; }
+    if (is("identity_default")) { int n = (int)c.a[0][0]; out = both_t<float>(view::identity(n), na::identity(n), ROpt(ref::eye(n, n, 0)), true); return true; }
+    if (is("eye_nm_default")) { int n = (int)c.a[0][0], m = (int)c.a[0][1]; out = both_t<float>(view::eye(n, m), na::eye(n, m), ROpt(ref::eye(n, m, 0)), true); return true; }
+    if (is("tri_nm_default")) { int n = (int)c.a[0][0], m = (int)c.a[0][1]; out = both_t<float>(view::tri(n, m), na::tri(n, m), ROpt(ref::tri(n, m, 0)), true); return true; }
+    if (is("eye_k_default")) { int n = (int)c.a[0][0], m = (int)c.a[0][1], k = (int)c.a[0][2]; out = both_t<float>(view::eye(n, m, k), na::eye(n, m, k), ROpt(ref::eye(n, m, k)), true); return true; }
+    if (is("tri_k_default")) { int n = (int)c.a[0][0], m = (int)c.a[0][1], k = (int)c.a[0][2]; out = both_t<float>(view::tri(n, m, k), na::tri(n, m, k), ROpt(ref::tri(n, m, k)), true); return true; }
+    // ------------------------------------------------------------------------------------------------ where with scalars
+    if (op.rfind("where_scalar_", 0) == 0) {
+        RArr rc(c.a[0]); for (size_t i = 0; i < rc.data.size(); i++) rc.data[i] = (double)((i * 7 + 3) % 3 != 0);
+        L os = c.a.size() > 1 ? c.a[1] : L{}; RArr ro = RArr::iota(os.empty() ? L{1} : os, 10);
+        auto bs = c.a.size() > 1 ? ref::broadcast_shapes({c.a[0], os}) : std::optional<L>(c.a[0]);
+        RArr bc = *ref::broadcast_to(rc, *bs), bo = c.a.size() > 1 ? *ref::broadcast_to(ro, *bs) : RArr(*bs);
+        const double sx = 7, sy = -5, syf = -2.5;
+        RArr w(*bs);
+        for (size_t i = 0; i < w.data.size(); i++) {
+            bool t_ = bc.data[i] != 0;
+            if (is("where_scalar_xy")) w.data[i] = t_ ? sx : sy; else if (is("where_scalar_x")) w.data[i] = t_ ? sx : bo.data[i];
+            else if (is("where_scalar_y")) w.data[i] = t_ ? bo.data[i] : sy; else w.data[i] = t_ ? bo.data[i] : syf;
+        }
+        auto cond = make_arr<long>(rc); auto o = make_arr<long>(ro);
+        if (is("where_scalar_xy")) out = both_t<long>(view::where(cond, (long)sx, (long)sy), na::where(cond, (long)sx, (long)sy), ROpt(w), true);
+        else if (is("where_scalar_x")) out = both_t<long>(view::where(cond, (long)sx, o), na::where(cond, (long)sx, o), ROpt(w), true);
+        else if (is("where_scalar_y")) out = both_t<long>(view::where(cond, o, (long)sy), na::where(cond, o, (long)sy), ROpt(w), true);
+        else if (is("where_scalar_yf")) out = both_t<double>(view::where(cond, o, syf), na::where(cond, o, syf), ROpt(w), true);   // NumPy: int64 array with a Python float -> float64
+        else nmc::die("unknown where op");
+        return true;
+    }
+    if (is("sliding_scalar")) {   // 1-d source, scalar window, axis omitted (NumPy: window_shape must cover every axis, so rank 1 only)
+        const L& s = c.a[0]; RArr r = RArr::iota(s); auto a = make_arr<long>(s); int w = (int)c.a[1][0];
+        out = both(view::sliding_window(a, w), na::sliding_window(a, w), ref::sliding_window(r, c.a[1], nullptr), true); return true;
+    }
+    // ------------------------------------------------------------------------------------------------ ops on a source array
+    static const char* const src_ops[] = {"ones_default", "zeros_dtype", "ones_dtype", "full_float", "full_like_frac", "full_like_dtype", "zeros_like_dtype", "ones_like_dtype",
+        "diagonal_default", "diagonal_offset", "diagonal_ct", "sliding_ctscalar", "sliding_cttuple", "expand_default", "expand_spacing", "expand_list", "expand_list_default",
+        "tril_default", "triu_default", "diagflat_default", "split_sections_eager", "split_indices_eager", "split_ct", "split_ct_indices"};
+    bool mine = false; for (auto* n : src_ops) if (op == n) mine = true;
+    if (!mine) return false;
+    const L& s = c.a[0]; const long d = (long)s.size(); RArr r = RArr::iota(s); auto a = make_arr<long>(s); auto shp = to_sl(s);
+    auto filled = [&](double v) { RArr w(s); for (auto& x : w.data) x = v; return w; };
+    if (is("ones_default")) { const auto e = na::ones(shp); out = judge(nmc::observe(e), ROpt(filled(1)), true); if (out.fail.empty()) { std::string dd = elem_type_diff<float>(e, "array"); if (!dd.empty()) out = Outcome::bad("dtype", dd, true, out.outcome); } return true; }
+    if (is("zeros_dtype")) { out = with_float_dtype(c.a[1][0], [&](auto dt) { return both_t<dt_elem<decltype(dt)>>(view::zeros(shp, dt), na::zeros(shp, dt), ROpt(filled(0)), true); }); return true; }
+    if (is("ones_dtype")) { out = with_float_dtype(c.a[1][0], [&](auto dt) { return both_t<dt_elem<decltype(dt)>>(view::ones(shp, dt), na::ones(shp, dt), ROpt(filled(1)), true); }); return true; }
+    if (is("full_float")) { out = c.a[1][0] == 0 ? both_t<float>(view::full(shp, 2.5f), na::full(shp, 2.5f), ROpt(filled(2.5)), true) : both_t<double>(view::full(shp, 2.5), na::full(shp, 2.5), ROpt(filled(2.5)), true); return true; }
+    if (is("full_like_frac") || is("full_like_dtype") || is("zeros_like_dtype") || is("ones_like_dtype")) {
+        auto with_src = [&](auto&& f) { if (c.a[1][0] == 0) return f(a, long{}); auto ad = make_arr<double>(s); return f(ad, double{}); };
+        if (is("full_like_frac")) { out = with_src([&](const auto& x, auto tag) { using T = decltype(tag); return both_t<T>(view::full_like(x, 2.5), na::full_like(x, 2.5), ROpt(astype<T>(filled(2.5))), true); }); return true; }
+        out = with_src([&](const auto& x, auto) { return with_dtype(c.a[2][0], [&](auto dt) { using T = dt_elem<decltype(dt)>;
+            if (is("full_like_dtype")) return both_t<T>(view::full_like(x, 2.5, dt), na::full_like(x, 2.5, dt), ROpt(astype<T>(filled(2.5))), true);
+            if (is("zeros_like_dtype")) return both_t<T>(view::zeros_like(x, dt), na::zeros_like(x, dt), ROpt(filled(0)), true);
+            return both_t<T>(view::ones_like(x, dt), na::ones_like(x, dt), ROpt(filled(1)), true); }); });
+        return true;
+    }
+    if (is("diagonal_default")) { out = both(view::diagonal(a), na::diagonal(a), ref::diagonal(r, 0, 0, 1), true); return true; }
+    if (is("diagonal_offset")) { int off = (int)c.a[1][0]; ROpt want = ref::diagonal(r, off, 0, 1); if (!want) { out = Outcome::ok(false, 5); return true; } out = both(view::diagonal(a, off), na::diagonal(a, off), want, true); return true; }
+    static const Fixed fx;
+    const long kind = (is("diagonal_ct") || is("sliding_ctscalar") || is("sliding_cttuple") || is("split_ct") || is("split_ct_indices")) ? c.a.back()[0] : 0;
+    if (kind == 1 && s != Fixed::shape_of((int)d)) nmc::die("fixed-shape case with a shape that is not in the table");
+    if (is("diagonal_ct")) {
+        long off = c.a[1][0], a1 = c.a[2][0], a2 = c.a[3][0];
+#define X(O, A, B) if (off == O && a1 == A && a2 == B) { out = kind ? diag_ct<O, A, B>(fx.f23, r) : diag_ct<O, A, B>(a, r); return true; }
+        if (d == 2) { OPT_DIAG2(X) }
+#undef X
+#define X(O, A, B) if (off == O && a1 == A && a2 == B) { out = kind ? diag_ct<O, A, B>(fx.f234, r) : diag_ct<O, A, B>(a, r); return true; }
+        if (d == 3) { OPT_DIAG3(X) }
+#undef X
+        nmc::die("diagonal_ct: combination not in the table");
+    }
+    if (is("sliding_ctscalar") || is("sliding_cttuple")) {
+        const L& wl = c.a[1]; const L& axl = c.a[2];
+        // R = rank of the source (selects the fixed-shape array); instantiated only for the ranks an entry is meant for
+        auto run = [&](auto rank, const auto& w, const auto& ax) -> Outcome {
+            constexpr int R = decltype(rank)::value;
+            if (d != R) nmc::die("sliding_ct: rank mismatch");
+            if (kind == 0) return sw_run(a, r, w, ax, wl, axl);
+            if constexpr (R == 1) return sw_run(fx.f6, r, w, ax, wl, axl); else if constexpr (R == 2) return sw_run(fx.f23, r, w, ax, wl, axl); else return sw_run(fx.f234, r, w, ax, wl, axl);
+        };
+        auto ranks = [&](auto lo, auto hi, const auto& w, const auto& ax) -> Outcome {   // dispatch d in [lo, hi]
+            constexpr int LO = decltype(lo)::value, HI = decltype(hi)::value;
+            if constexpr (LO <= 1 && 1 <= HI) if (d == 1) return run(rank_c<1>{}, w, ax);
+            if constexpr (LO <= 2 && 2 <= HI) if (d == 2) return run(rank_c<2>{}, w, ax);
+            if constexpr (LO <= 3 && 3 <= HI) if (d == 3) return run(rank_c<3>{}, w, ax);
+            nmc::die("sliding_ct: rank outside the entry's range");
+        };
+        using R1 = rank_c<1>; using R2 = rank_c<2>; using R3 = rank_c<3>;
+        if (is("sliding_ctscalar")) {
+            if (wl == L{2} && axl.empty()) { out = ranks(R1{}, R1{}, ctc<2>(), nm::None); return true; }
+            if (wl == L{3} && axl.empty()) { out = ranks(R1{}, R1{}, ctc<3>(), nm::None); return true; }
+            if (wl == L{2} && axl == L{-1}) { out = ranks(R1{}, R3{}, ctc<2>(), ctc<-1>()); return true; }
+            if (wl == L{2} && axl == L{0}) { out = ranks(R1{}, R3{}, ctc<2>(), ctc<0>()); return true; }
+            if (wl == L{3} && axl == L{1}) { out = ranks(R2{}, R3{}, ctc<3>(), ctc<1>()); return true; }
+        } else {
+            if (wl == L{2} && axl.empty()) { out = ranks(R1{}, R1{}, ctt<2>(), nm::None); return true; }
+            if (wl == L{2, 2} && axl.empty()) { out = ranks(R2{}, R2{}, ctt<2, 2>(), nm::None); return true; }
+            if (wl == L{1, 3} && axl.empty()) { out = ranks(R2{}, R2{}, ctt<1, 3>(), nm::None); return true; }
+            if (wl == L{2, 1, 2} && axl.empty()) { out = ranks(R3{}, R3{}, ctt<2, 1, 2>(), nm::None); return true; }
+            if (wl == L{2, 2} && axl == L{1, 0}) { out = ranks(R2{}, R3{}, ctt<2, 2>(), ctt<1, 0>()); return true; }
+            if (wl == L{2, 2} && axl == L{-1, -2}) { out = ranks(R2{}, R3{}, ctt<2, 2>(), ctt<-1, -2>()); return true; }
+            if (wl == L{2} && axl == L{-1}) { out = ranks(R1{}, R3{}, ctt<2>(), ctt<-1>()); return true; }
+            if (wl == L{1, 2} && axl == L{0, 0}) { out = ranks(R2{}, R3{}, ctt<1, 2>(), ctt<0, 0>()); return true; }   // repeated axis: NumPy applies the windows one after the other
+        }
+        nmc::die("sliding_ct: combination not in the table");
+    }
+    if (is("expand_default")) { int ax = (int)c.a[1][0]; out = both(view::expand(a, ax), na::expand(a, ax), ref_expand(r, c.a[1], L{1}, 0), true); return true; }
+    if (is("expand_spacing")) { int ax = (int)c.a[1][0], sp = (int)c.a[2][0]; out = both(view::expand(a, ax, sp), na::expand(a, ax, sp), ref_expand(r, c.a[1], c.a[2], 0), true); return true; }
+    if (is("expand_list")) { auto ax = to_il(c.a[1]); int sp = (int)c.a[2][0]; out = both(view::expand(a, ax, sp, (long)-7), na::expand(a, ax, sp, (long)-7), ref_expand(r, c.a[1], L(c.a[1].size(), c.a[2][0]), -7), true); return true; }
+    if (is("expand_list_default")) { auto ax = to_il(c.a[1]); out = both(view::expand(a, ax), na::expand(a, ax), ref_expand(r, c.a[1], L(c.a[1].size(), 1), 0), true); return true; }
+    if (is("tril_default")) { out = both(view::tril(a), na::tril(a), ref::tril(r, 0, false), true); return true; }
+    if (is("triu_default")) { out = both(view::triu(a), na::triu(a), ref::tril(r, 0, true), true); return true; }
+    if (is("diagflat_default")) { out = both(view::diagflat(a), na::diagflat(a), ref::diagflat(r, 0), true); return true; }
+    if (is("split_sections_eager")) {
+        long k = c.a[1][0], ax = c.a[2][0]; long n = s[(size_t)(ax < 0 ? ax + d : ax)];
+        const auto parts = na::split(a, (int)k, (int)ax); out = check_split(parts, np_split(r, section_cuts(n, k), ax)); return true;
+    }
+    if (is("split_indices_eager")) { long ax = c.a[2][0]; auto cuts = to_il(c.a[1]); const auto parts = na::split(a, cuts, (int)ax); out = check_split(parts, np_split(r, c.a[1], ax)); return true; }
+    if (is("split_ct") || is("split_ct_indices")) {
+        const L& kl = c.a[1]; long ax = c.a[2][0]; long n = s[(size_t)(ax < 0 ? ax + d : ax)];
+        L cuts = is("split_ct") ? section_cuts(n, kl[0]) : kl;
+        if (kind == 0) {   // dynamic source, constant sections / indices, run-time axis
+            int rax = (int)ax;
+            if (is("split_ct")) { if (kl[0] == 1) out = split_run(a, r, ctc<1>(), rax, cuts, ax); else if (kl[0] == 2) out = split_run(a, r, ctc<2>(), rax, cuts, ax); else if (kl[0] == 3) out = split_run(a, r, ctc<3>(), rax, cuts, ax); else nmc::die("split_ct: sections not in the table"); }
+            else { if (kl == L{1}) out = split_run(a, r, ctt<1>(), rax, cuts, ax); else if (kl == L{1, 2}) out = split_run(a, r, ctt<1, 2>(), rax, cuts, ax); else nmc::die("split_ct_indices: indices not in the table"); }
+            return true;
+        }
+        // fixed-shape source, everything constant
+        if (is("split_ct")) {
+            if (d == 2 && kl[0] == 3 && ax == 1) { out = split_run(fx.f23, r, ctc<3>(), ctc<1>(), cuts, ax); return true; }
+            if (d == 2 && kl[0] == 1 && ax == 0) { out = split_run(fx.f23, r, ctc<1>(), ctc<0>(), cuts, ax); return true; }
+            if (d == 2 && kl[0] == 2 && ax == -2) { out = split_run(fx.f23, r, ctc<2>(), ctc<-2>(), cuts, ax); return true; }
+            if (d == 2 && kl[0] == 3 && ax == -1) { out = split_run(fx.f23, r, ctc<3>(), ctc<-1>(), cuts, ax); return true; }
+            if (d == 3 && kl[0] == 2 && ax == 2) { out = split_run(fx.f234, r, ctc<2>(), ctc<2>(), cuts, ax); return true; }
+            if (d == 3 && kl[0] == 3 && ax == -2) { out = split_run(fx.f234, r, ctc<3>(), ctc<-2>(), cuts, ax); return true; }
+            if (d == 3 && kl[0] == 2 && ax == 0) { out = split_run(fx.f234, r, ctc<2>(), ctc<0>(), cuts, ax); return true; }
+            if (d == 1 && kl[0] == 3 && ax == 0) { out = split_run(fx.f6, r, ctc<3>(), ctc<0>(), cuts, ax); return true; }
+        } else {
+            if (d == 2 && kl == L{1, 2} && ax == 1) { out = split_run(fx.f23, r, ctt<1, 2>(), ctc<1>(), cuts, ax); return true; }
+            if (d == 2 && kl == L{1} && ax == 0) { out = split_run(fx.f23, r, ctt<1>(), ctc<0>(), cuts, ax); return true; }
+            if (d == 3 && kl == L{1, 3} && ax == -1) { out = split_run(fx.f234, r, ctt<1, 3>(), ctc<-1>(), cuts, ax); return true; }
+            if (d == 1 && kl == L{2, 5} && ax == 0) { out = split_run(fx.f6, r, ctt<2, 5>(), ctc<0>(), cuts, ax); return true; }
+        }
+        nmc::die("split_ct: combination not in the table");
+    }
+    nmc::die("optional-parameter op without an executor");
+}
+
+static void selftest_optional() {
+    using namespace opt;
+    // the models of the new parameters
+    double st = 0; RArr l = np_linspace(0.5, 2.5, 5, false, &st); if (l.data[1] != 0.9 || std::fabs(st - 0.4) > 1e-15) nmc::die("selftest: linspace model (endpoint=False, step)");
+    RArr li = astype<int>(np_linspace(-2.0, 1.5, 4, true), true); if (li.data != std::vector<double>{-2, -1, 0, 1}) nmc::die("selftest: linspace integer dtype model (NumPy floors)");
+    if (!std::isnan((np_linspace(0.5, 2.5, 1, true, &st), st))) nmc::die("selftest: linspace step for a single sample");
+    // a wrong element type must be flagged, the right one accepted
+    auto shp = to_sl(L{2, 2}); const auto z = view::zeros(shp, nm::float32);
+    if (elem_type_diff<double>(z, "view").empty() || !elem_type_diff<float>(z, "view").empty()) nmc::die("selftest: element type comparison is blind");
+    RArr w(L{2, 2}); Outcome o = both_t<double>(z, na::zeros(shp, nm::float32), ROpt(w), true); if (o.fail.empty() || std::string(o.kind) != "dtype") nmc::die("selftest: both_t accepts a wrong dtype");
+    // a wrong returned value must be flagged through the same comparison
+    RArr one(L{2, 2}); one.data[3] = 1; if (both_t<float>(z, na::zeros(shp, nm::float32), ROpt(one), true).fail.empty()) nmc::die("selftest: both_t blind to a wrong element");
 }
